@@ -44,6 +44,8 @@ def check(rep, relpath, theorem, secs=900):
     if rc != 0 or re.search(r"(^|\n)[^\n]*: error", out):
         rep.crashes.append("lean rejected %s: %s" % (relpath, out[-600:]))
         return
+    if getattr(rep, "tier", "quick") != "quick":
+        _independent_recheck(rep, path, relpath)
     for th in names:
         m = re.search(r"'%s' depends on axioms: \[([^\]]*)\]" % re.escape(th), out)
         axioms = set(a.strip() for a in m.group(1).split(",")) if m else None
@@ -55,6 +57,45 @@ def check(rep, relpath, theorem, secs=900):
             rep.coverage.setdefault("lean_lemmas", []).append(dict(file=relpath, theorem=th, axioms=sorted(axioms),
                                                                    checker="lean 4 + Mathlib (%s)" % _lean_version(), secs=round(took, 1)))
             rep.evaluations += 1
+
+
+_RECHECKED = {}
+
+
+def _independent_recheck(rep, path, relpath):
+    """thorough tier: compile the file to an .olean in a scratch directory and replay it with `leanchecker`, Lean's
+    independent re-checker of compiled declarations (kernel only, no elaborator)"""
+    if path in _RECHECKED:
+        res = _RECHECKED[path]
+    else:
+        import shutil, tempfile
+        d = tempfile.mkdtemp(prefix="leancheck_", dir=os.path.join(HERE, "scratch") if os.path.isdir(os.path.join(HERE, "scratch")) else None)
+        try:
+            mod = os.path.splitext(os.path.basename(path))[0]
+            shutil.copy(path, os.path.join(d, mod + ".lean"))
+            t0 = time.time()
+            try:
+                p1 = subprocess.run(["lean", "-o", mod + ".olean", mod + ".lean"], capture_output=True, text=True, timeout=900, cwd=d)
+                if p1.returncode != 0 or not os.path.exists(os.path.join(d, mod + ".olean")):
+                    res = ("error", "lean -o failed: " + (p1.stdout + p1.stderr)[-300:])
+                else:
+                    env = dict(os.environ, LEAN_PATH=d + (":" + os.environ["LEAN_PATH"] if os.environ.get("LEAN_PATH") else ""))
+                    p2 = subprocess.run(["leanchecker", mod], capture_output=True, text=True, timeout=900, cwd=d, env=env)
+                    res = ("ok", round(time.time() - t0, 1)) if p2.returncode == 0 else ("error", "leanchecker rejected %s: %s" % (mod, (p2.stdout + p2.stderr)[-300:]))
+            except FileNotFoundError:
+                res = ("missing", "")
+            except subprocess.TimeoutExpired:
+                res = ("timeout", "")
+        finally:
+            shutil.rmtree(d, ignore_errors=True)
+        _RECHECKED[path] = res
+    if res[0] == "ok":
+        rep.coverage.setdefault("lean_independent_recheck", []).append(dict(file=relpath, checker="leanchecker (kernel replay of the compiled file)", secs=res[1]))
+        rep.evaluations += 1
+    elif res[0] == "error":
+        rep.crashes.append(res[1])
+    else:
+        rep.undecide("leanchecker not available / timed out for %s" % relpath)
 
 
 def _lean_version():
